@@ -353,7 +353,7 @@ class sptensor:
             # Squeeze to convert from column vector to row vector
             newvals = accumarray(
                 loc.flatten(),
-                np.squeeze(vals),
+                np.reshape(vals, (-1,)),
                 size=newsubs.shape[0],
                 func=function_handle,
             )
